@@ -169,7 +169,7 @@ func init() {
 		},
 		NBatches: func(t core.Tier) int { return n(t, 16, 32) },
 		Floors: func(t core.Tier) map[string]int {
-			return map[string]int{"evaluations": n(t, 12000, 400000), "distinct_nontrivial": n(t, 6000, 150000), "gen_hazard": 2500, "gen_program": n(t, 1500, 50000), "gen_exprgen": n(t, 3000, 100000)}
+			return map[string]int{"evaluations": n(t, 80000, 2000000), "distinct_nontrivial": n(t, 40000, 800000), "gen_hazard": 2500, "gen_program": n(t, 10000, 250000), "gen_exprgen": n(t, 20000, 500000), "gen_numlit": n(t, 5000, 120000)}
 		},
 		Run: func(c *core.Ctx) {
 			rng := c.Rand("c20")
@@ -196,7 +196,7 @@ func init() {
 				idx++
 			}
 			ops := c04Ops()
-			total := n(c.Tier, 24000, 800000) / c.NBatches
+			total := n(c.Tier, 160000, 4000000) / c.NBatches
 			for i := 0; i < total; i++ {
 				switch r := rng.Intn(100); {
 				case r < 45:
@@ -221,6 +221,42 @@ func init() {
 					gc := c01Generate(rng.Int63(), fam)
 					src := [3]string{gc.Src, gc.SrcB, gc.SrcC}[rng.Intn(3)]
 					c20Check(c, c20Case{Gen: "program", Src: src})
+				case r < 78:
+					// numeric literals of every magnitude and spelling (the printer shows six digits)
+					var lits []string
+					for k := 0; k < 4; k++ {
+						digits := 1 + rng.Intn(19)
+						var sb strings.Builder
+						for d := 0; d < digits; d++ {
+							sb.WriteByte(byte('0' + rng.Intn(10)))
+							if d == 0 && rng.Intn(3) > 0 && sb.String() == "0" {
+								sb.Reset()
+								sb.WriteByte(byte('1' + rng.Intn(9)))
+							}
+						}
+						lit := sb.String()
+						switch rng.Intn(5) {
+						case 0:
+							at := rng.Intn(len(lit) + 1)
+							lit = lit[:at] + "." + lit[at:]
+							if lit == "." {
+								lit = ".5"
+							}
+						case 1:
+							lit += fmt.Sprintf("e%d", rng.Intn(40)-20)
+						case 2:
+							at := rng.Intn(len(lit) + 1)
+							lit = lit[:at] + "." + lit[at:] + fmt.Sprintf("E%+d", rng.Intn(330)-20)
+							if strings.HasPrefix(lit, ".E") {
+								lit = "1" + lit
+							}
+						case 3:
+							lit = []string{"999999", "9999995", "99999950", "1000000", "999999.5", "0.9999995", "9.999995", "99999.95", "999999500000", "9.999995e17", "1e18", "9.999994e17"}[rng.Intn(12)] +
+								[]string{"", "0", "00", "1", "9"}[rng.Intn(5)]
+						}
+						lits = append(lits, lit)
+					}
+					c20Check(c, c20Case{Gen: "numlit", Src: "BEGIN { x = " + lits[0] + "; print " + lits[1] + ", -" + lits[2] + " " + lits[3] + " }\n" + lits[0] + " < " + lits[1] + "\n"})
 				default:
 					src, g := genMutateCorpus(rng, progs)
 					if c20Check(c, c20Case{Gen: "mutated-" + strings.TrimPrefix(g, "corpus-"), Src: string(src)}) {
